@@ -68,7 +68,7 @@ def gen_spec(rng, kind=None):
             for f in v["fields"]:
                 f["eq_ignore"] = rng.choice([None, "eq", "partial_eq"])
     return {"kind": kind, "variants": variants, "generic": generic, "entry": rng.choice(["attr", "derive"]),
-            "names": "r" if rng.random() < 0.25 else None, "co": co}
+            "names": "r" if rng.random() < 0.25 else None, "co": co, "doc": rng.random() < 0.3}
 
 
 def type_text(spec, twin):
@@ -97,6 +97,9 @@ def type_text(spec, twin):
                     args = ["bound(..)"] + args if f["bound"] == "pre" else args + ["bound(..)"]
                 if args:
                     a = f"#[debug({', '.join(args)})] "
+                if a and spec.get("doc"):
+                    # a foreign `name = value` attribute (what a doc comment is) in front of the helper attribute
+                    a = '#[doc = "d"] ' + a
                 if spec.get("co") and f.get("eq_ignore"):
                     a = a + f"#[{f['eq_ignore']}(ignore)] " if i % 2 else f"#[{f['eq_ignore']}(ignore)] " + a
             if f["ft"] in ("T", "optT"):
@@ -141,7 +144,7 @@ def ctor(spec, vi, which, twin, prefix=""):
 def render(spec, control=False):
     dx, _ = type_text(spec, False)
     if control:
-        dx = re.sub(r"#\[(debug|eq|partial_eq)\([^\]]*\)\] ", "", dx)
+        dx = re.sub(r"#\[(debug|eq|partial_eq)\([^\]]*\)\] ", "", dx).replace('#[doc = "d"] ', "")
         dx = re.sub(r"#\[::derive_ex::derive_ex\([^\]]*\)\]\n(#\[derive_ex\([^\]]*\)\]\n)*", "#[derive(Debug)]\n", dx)
         dx = re.sub(r"#\[derive\(::derive_ex::Ex\)\]\n(#\[derive_ex\([^\]]*\)\]\n)*", "#[derive(Debug)]\n", dx)
     tw, tw_generic = type_text(spec, True)
@@ -214,7 +217,8 @@ def core():
             fs = [fld("u8"), fld("str", ignore=True), fld("i32"), fld("opt", ignore=True), fld("vec")]
             for f in fs:
                 f["bound"] = bnd if f["ignore"] else None
-            specs.append({"kind": "struct", "variants": [{"style": style, "fields": fs}], "generic": False, "entry": "attr" if k % 2 else "derive", "names": "r"})
+            specs.append({"kind": "struct", "variants": [{"style": style, "fields": fs}], "generic": False, "entry": "attr" if k % 2 else "derive", "names": "r",
+                          "doc": bnd is None})
             ft = [fld("u8", ignore=True), fld("inner", transparent=True), fld("i32", ignore=True)]
             ft[1]["bound"] = bnd
             specs.append({"kind": "enum", "variants": [{"style": "unit", "fields": []}, {"style": style, "fields": ft}], "generic": False,
